@@ -181,6 +181,16 @@ def generate(rng, tier):
                                                                       ("5 pears", 15.0), ("3 apples", 3.0), ("2 pears 4 apples", 10.0)]))
     cases.append(picky(["{NUMBER:x} pears", "{NUMBER:y} apples"], [("3 apples + 5 pears", 18.0), ("5 pears + 3 apples", 18.0)]))
     cases.append(picky(["{NUMBER:y} {TEXT:fruit}", "{TEXT:fruit} {NUMBER:x}"], [("3 apples + pears 5", 18.0), ("pears 5", 15.0)]))
+    # a pattern that contains an operator WORD of the language (times, minus, sum ...): patterns are tokenised like lines
+    # (months, regex parsers, aliases), so the word is the operator on both sides and the rule fires
+    tiles = {"op": "add_rule", "lang": "en", "patterns": ["{NUMBER:a} times {NUMBER:b} tiles", "{NUMBER:a} minus {NUMBER:b} tiles"],
+             "name": "tiles", "kind": "sum", "k": str(bits(0.0)), "cur": ""}
+    ops = [tiles]
+    checks = [("ret", 0, True)]
+    for t, v in (("3 times 4 tiles", 7.0), ("3 * 4 tiles", 7.0), ("10 minus 4 tiles", 14.0), ("3 times 4", 12.0)):
+        ops.append({"op": "exec", "lang": "en", "text": t})
+        checks.append(("abs", len(ops) - 1, v))
+    cases.append({"ops": ops, "meta": {"kind": "alias-word-in-pattern", "checks": checks, "interesting": True, "pair": None}})
     # the order of add_rule and add_dynamic_type(_item) is irrelevant: a rule whose field names a family that is created
     # later fires once the family exists
     def gauge(rule_first):
